@@ -12,6 +12,7 @@
 
 #include <verif.hpp>
 
+#include <atomic>
 #include <memory>
 #include <ostream>
 #include <mutex>
@@ -23,7 +24,8 @@ namespace verif {
 struct Ledger {
     std::mutex mtx;
     std::unordered_set<const void*> live;
-    uint64_t constructed = 0, destroyed = 0, copied = 0, moved = 0, assigned = 0;
+    uint64_t constructed = 0, destroyed = 0;                 // under mtx
+    std::atomic<uint64_t> copied{ 0 }, moved{ 0 }, assigned{ 0 };   // statistics, updated outside the lock
     uint64_t errors = 0;
     std::string prop = "C??";
     static Ledger& get() { static Ledger l; return l; }
